@@ -1272,6 +1272,93 @@ fn witness_bytes(prop: &str, inputs: &[&[u8]], what: &str) {
     println!("{{\"witness\":{{\"kind\":\"bytes\",\"property\":\"{}\",\"docs\":[{}],\"docs_hex\":[{}],\"violation\":\"{}\"}}}}", prop, ds.join(","), hx.join(","), esc(what));
 }
 
+static WITNESS_SEEN: std::sync::atomic::AtomicBool = std::sync::atomic::AtomicBool::new(false);
+fn mark_witness() {
+    WITNESS_SEEN.store(true, std::sync::atomic::Ordering::SeqCst);
+}
+fn stats_no_witness() -> bool {
+    !WITNESS_SEEN.load(std::sync::atomic::Ordering::SeqCst)
+}
+/// is the '>' at index gt the end of a start / empty tag (not of an end tag, comment, PI, declaration)?
+fn tag_is_start(d: &[u8], gt: usize) -> bool {
+    let mut j = gt;
+    while j > 0 && d[j] != b'<' {
+        j -= 1;
+    }
+    d[j] == b'<' && j + 1 < d.len() && d[j + 1].is_ascii_alphabetic()
+}
+
+/// `<r>` + `n` comments of 1 MiB + `<a></b></r>`, produced on the fly
+struct FarInput {
+    stage: u8,
+    left: u64,
+    off: usize,
+    chunk: std::sync::Arc<Vec<u8>>,
+    tail: &'static [u8],
+}
+impl std::io::Read for FarInput {
+    fn read(&mut self, out: &mut [u8]) -> std::io::Result<usize> {
+        loop {
+            let src: &[u8] = match self.stage {
+                0 => b"<r>",
+                1 => &self.chunk[..],
+                2 => self.tail,
+                _ => return Ok(0),
+            };
+            if self.off >= src.len() {
+                self.off = 0;
+                if self.stage == 1 && self.left > 1 {
+                    self.left -= 1;
+                } else {
+                    self.stage += 1;
+                }
+                continue;
+            }
+            let n = out.len().min(src.len() - self.off);
+            out[..n].copy_from_slice(&src[self.off..self.off + n]);
+            self.off += n;
+            return Ok(n);
+        }
+    }
+}
+fn far_input(chunk: &std::sync::Arc<Vec<u8>>) -> Reader<BufReader<FarInput>> {
+    Reader::from_reader(BufReader::with_capacity(1 << 16, FarInput { stage: 0, left: 4100, off: 0, chunk: chunk.clone(), tail: b"<a></b></r>" }))
+}
+fn check_c08_far() -> Option<String> {
+    let mut c = b"<!--".to_vec();
+    c.resize((1 << 20) - 3, b'c');
+    c.extend_from_slice(b"-->");
+    let chunk = std::sync::Arc::new(c);
+    // independent pass
+    let mut r = far_input(&chunk);
+    let mut buf = Vec::new();
+    let want = loop {
+        match r.read_event_into(&mut buf) {
+            Err(e) => break Verdict::Syntax(r.buffer_position(), format!("{:?}", e)),
+            Ok(Event::Eof) => break Verdict::Ok,
+            Ok(_) => {}
+        }
+        buf.clear();
+    };
+    if let Verdict::Syntax(p, _) = &want {
+        if *p < (1u64 << 32) {
+            return None; // the generator did not reach 2^32: nothing to compare
+        }
+    } else {
+        return None;
+    }
+    let got = classify(&into_struct(&mut far_input(&chunk)));
+    if got != want {
+        return Some(format!("into_struct on a streamed input with a mismatched end tag beyond byte 2^32: {:?}, independent pass over the reader events says {:?}", got, want));
+    }
+    let root = into_struct(&mut Reader::from_reader(&b"<r/>"[..])).ok()?;
+    let got2 = classify(&extend_struct(&mut far_input(&chunk), root));
+    if got2 != want {
+        return Some(format!("extend_struct on a streamed input with a mismatched end tag beyond byte 2^32: {:?}, independent pass over the reader events says {:?}", got2, want));
+    }
+    None
+}
+
 fn search_c08(tier: &str, seed: u64) {
     let mut stats = Stats::new();
     let base = corpus(tier);
@@ -1293,16 +1380,68 @@ fn search_c08(tier: &str, seed: u64) {
                 Ok(None) => {}
                 Ok(Some(e)) => {
                     witness_bytes("C08", &[&first, &second], &e);
+                    mark_witness();
                     break 'outer;
                 }
                 Err(_) => {
                     witness_bytes("C08", &[&first, &second], "the library panicked");
+                    mark_witness();
                     break 'outer;
                 }
             }
         }
     }
-    stats.print("pairs (initial input, extension input): well-formed small documents and the listed element-less inputs, unmodified and after 1-3 seeded byte-level mutations (delete, insert markup/duplicate attribute/invalid UTF-8 fragments, truncate, overwrite); verdict and error position compared with an independent pass over the reader events in stream order", &sample);
+    // ---- systematic damage of deeper documents: every start tag in turn gets a duplicated attribute / a non-UTF-8 key / a non-UTF-8 name
+    if stats_no_witness() {
+        let mut rng2 = Rng(seed ^ 0xc08d);
+        let mut deep: Vec<Vec<u8>> = Vec::new();
+        for f in threshold_family() {
+            for n in f {
+                deep.push(write_doc(&n, &Style::default()).into_bytes());
+            }
+        }
+        let nd = if tier == "thorough" { 1500 } else { 250 };
+        for _ in 0..nd {
+            deep.push(write_doc(&random_doc(&mut rng2, &["a", "b", "c"], &["x", "y"], 4, 16), &Style::default()).into_bytes());
+        }
+        'sys: for d in &deep {
+            let tags: Vec<usize> = (0..d.len()).filter(|&i| d[i] == b'>' && tag_is_start(d, i)).collect();
+            for &gt in &tags {
+                let at = if gt > 0 && d[gt - 1] == b'/' { gt - 1 } else { gt };
+                for frag in [&b" q=\"1\" q=\"2\""[..], &b" \xff=\"1\""[..], &b"\xff"[..], &b" q"[..], &b" q=1"[..]] {
+                    let mut dmg = d.clone();
+                    for (k, x) in frag.iter().enumerate() {
+                        dmg.insert(at + k, *x);
+                    }
+                    for (first, second) in [(dmg.clone(), None), (d.clone(), Some(dmg.clone()))] {
+                        stats.note(&format!("{} ; {:?}", hex(&first), second.as_ref().map(|s| hex(s))));
+                        let (f2, s2) = (first.clone(), second.clone());
+                        let res = std::panic::catch_unwind(move || check_c08(&f2, s2.as_deref()));
+                        let what = match res {
+                            Ok(None) => continue,
+                            Ok(Some(e)) => e,
+                            Err(_) => "the library panicked".to_string(),
+                        };
+                        match &second {
+                            Some(s2) => witness_bytes("C08", &[&first, s2], &what),
+                            None => witness_bytes("C08", &[&first], &what),
+                        }
+                        mark_witness();
+                        break 'sys;
+                    }
+                }
+            }
+        }
+    }
+    // ---- an error position beyond 2^32: streamed input, nothing of that size is held in memory
+    if stats_no_witness() {
+        if let Some(e) = check_c08_far() {
+            println!("{{\"witness\":{{\"kind\":\"far\",\"property\":\"C08\",\"docs\":[\"<r> + 4100 comments of 1 MiB + <a></b></r>  (streamed)\"],\"violation\":\"{}\"}}}}", esc(&e));
+            mark_witness();
+        }
+        stats.evals += 2;
+    }
+    stats.print("pairs (initial input, extension input): well-formed small documents and the listed element-less inputs, unmodified and after 1-3 seeded byte-level mutations (delete, insert markup/duplicate attribute/invalid UTF-8 fragments, truncate, overwrite); verdict and error position compared with an independent pass over the reader events in stream order; plus the threshold family and seeded random documents of up to 16 elements (depth 4) in which every start tag in turn receives a duplicated attribute, a non-UTF-8 attribute key, a non-UTF-8 name byte, a value-less and an unquoted attribute (as initial input and as extension); plus one streamed input of 4.3 GB whose mismatched end tag lies beyond byte 2^32", &sample);
 }
 
 // ------------------------------------------------------------------------------------------------ C07
@@ -1934,6 +2073,13 @@ fn main() {
                 None => println!("holds on this input"),
             }
         }
+        "far" => match check_c08_far() {
+            Some(e) => {
+                println!("VIOLATED: {e}");
+                std::process::exit(1)
+            }
+            None => println!("holds on this input"),
+        },
         "bytes" => {
             let prop = a[2].as_str();
             let ds = read_files(&a[3..]);
